@@ -33,6 +33,7 @@ def check(repo: Repo, rep, tier):
     tests_per_file(repo, rep)
     collect_all(repo, rep)
     outer_compare(repo, rep)
+    driver_order(repo, rep)
     from .C20 import mode_table, one_mode
     from .C04 import xdist_worker
 
@@ -377,6 +378,40 @@ def outer_compare(repo: Repo, rep):
                     construct=f"{f.qualname}:{used[0]}",
                 )
     rep.floor("R-OUTER-COMPARE", "comparisons with caller-supplied expectations", n, 4)
+
+
+def driver_order(repo: Repo, rep):
+    rep.rule(
+        "R-DRIVER-ORDER",
+        "the in-process driver runs the test functions of a file in definition order, like pytest: the loop / comprehension that picks the `test_*` "
+        "callables iterates the module namespace (`<dict>.items()`) itself, not a sorted / reversed / set copy of it (tests that share a module-level "
+        "snapshot used with `in` or `[key]` record their values in execution order); and the files it reports are read back as they are on disc "
+        "(no codec that drops a byte order mark)",
+    )
+    f = repo.func("testing/_example.py::Example.run_inline")
+    n = 0
+    for x in body_nodes(f.node):
+        it = None
+        if isinstance(x, (ast.For, ast.comprehension)):
+            tests = " ".join(norm(t) for t in (x.ifs if isinstance(x, ast.comprehension) else [s_.test for s_ in x.body if isinstance(s_, ast.If)]))
+            if "test_" in tests or "startswith" in tests:
+                it = x.iter
+        if it is None:
+            continue
+        n += 1
+        if isinstance(it, ast.Call) and isinstance(it.func, ast.Attribute) and it.func.attr == "items" and not it.args:
+            rep.ok("R-DRIVER-ORDER", f, it, "test functions in definition order")
+        else:
+            rep.violation("R-DRIVER-ORDER", f, it, f"run_inline picks the test functions from `{short(it, 50)}`: their order is no longer the definition order pytest uses - for tests that share a snapshot (`in`, `[key]`) the helper creates `[10, 20]` where a real session creates `[20, 10]`", construct="test-order")
+    rep.floor("R-DRIVER-ORDER", "selections of test_* callables in run_inline", n, 1)
+    rf = repo.find_func("testing/_example.py", "Example._read_files")
+    if rf is not None:
+        for c in [x for x in body_nodes(rf.node) if isinstance(x, ast.Call) and isinstance(x.func, ast.Attribute) and x.func.attr == "read_text"]:
+            enc = (c.args[0] if c.args else next((k.value for k in c.keywords if k.arg == "encoding"), None))
+            if isinstance(enc, ast.Constant) and str(enc.value).lower().replace("_", "-") == "utf-8-sig":
+                rep.violation("R-DRIVER-ORDER", rf, c, "Example._read_files decodes with utf-8-sig: the byte order mark that a real session keeps in the file is dropped from the reported `changed_files` and from the next step of a chain", construct="read-back-codec")
+            else:
+                rep.ok("R-DRIVER-ORDER", rf, c, "files are read back without dropping characters")
 
 
 def collect_all(repo: Repo, rep):
